@@ -197,6 +197,83 @@ def r_inplace(ck: Checker, ncls: set[str]) -> None:
         ck.holds("R-INPLACE", ("src/pyoak", "*"), None, what, evaluations=n, mutation_sites=n)
 
 
+WITNESS_FAIL = """from dataclasses import dataclass
+from pyoak.node import ASTNode
+
+
+@dataclass(frozen=True)
+class W(ASTNode):
+    x: int = 1
+
+
+w = W()
+w.x = 2
+w.id = "a"
+del w.x
+"""
+WITNESS_PASS = """from dataclasses import dataclass
+from pyoak.node import ASTNode
+
+
+@dataclass(frozen=True)
+class W(ASTNode):
+    x: int = 1
+
+
+w = W()
+print(w.x, w.id, w.content_id, w.origin)
+"""
+
+
+def r_frozen_witness(ck: Checker) -> None:
+    """Compile-fail witness: a program that assigns to a node field must not type-check; its reading twin must."""
+    from ..typed import witness
+
+    res = witness(ck.repo, {"witness_fail": WITNESS_FAIL, "witness_pass": WITNESS_PASS})
+    c = ck.repo.cls("pyoak.node", "ASTNode")
+    fail = [l for l in res["witness_fail"] if "error:" in l]
+    ro = [l for l in fail if "read-only" in l]
+    what = "compile-fail witness: assigning to `x` and `id` of a frozen ASTNode subclass is rejected by the type checker as read-only"
+    if len(ro) >= 2:
+        ck.holds("R-FROZEN", (c.mod.rel, "class ASTNode"), c.node, what, mypy=ro[:3])
+    else:
+        ck.violation("R-FROZEN", (c.mod.rel, "class ASTNode"), c.node, what, construct="witness program that mutates a node type-checks", mypy=res["witness_fail"][:5])
+    what = "passing twin: the same program that only reads the fields type-checks"
+    perr = [l for l in res["witness_pass"] if "error:" in l]
+    if not perr:
+        ck.holds("R-FROZEN", (c.mod.rel, "class ASTNode"), c.node, what)
+    else:
+        ck.incomplete("R-FROZEN", (c.mod.rel, "class ASTNode"), c.node, f"the passing twin does not type-check: {perr[:2]}")
+
+
+def r_bypass_typed(ck: Checker, ncls: set[str]) -> None:
+    """Typed cross-check of the receiver classification (mypy-inferred receiver types)."""
+    from ..typed import typed_repo
+
+    tr = typed_repo(ck.repo)
+    mods = ck.repo.nonlegacy()
+    n = 0
+    node_types = {f"pyoak.node.{c}" for c in ncls} | {f"pyoak.match.xpath.{c}" for c in ncls}
+    for w in scan_writes(ck.repo, mods):
+        f = w.func
+        r = w.receiver
+        ts = tr.type_at(f.mod.name, getattr(r, "lineno", 0), getattr(r, "col_offset", -1), type(r).__name__)
+        if not ts:
+            continue
+        n += 1
+        is_node = any(t.split("[")[0].rstrip("?") in node_types or t.startswith(("ASTNodeType`", "_AT`")) for t in ts)
+        is_cls = any(t.startswith(("type[", "def (")) or "Type[" in t for t in ts)
+        what = "typed cross-check: no attribute write has a receiver whose inferred type is a node instance, except objects under construction"
+        allowed = (isinstance(r, ast.Name) and r.id == "self" and f.qualname.split(".")[-1] == "__post_init__") or \
+            (isinstance(r, ast.Name) and (f.mod.name, f.qualname, r.id) in FRESH_LOCALS)
+        if is_node and not is_cls and not allowed:
+            ck.violation("R-BYPASS-WRITE", f, w.node, what, construct=f"{w.kind} on {w.recv}.{w.attr}: receiver has inferred type {ts[0]}")
+        else:
+            ck.holds("R-BYPASS-TYPED", f, w.node, what, receiver=w.recv, inferred=ts[0])
+    if n < 30:
+        ck.incomplete("R-BYPASS-TYPED", None, None, f"only {n} write receivers carry an inferred type (>= 30 expected)")
+
+
 def run(ck: Checker) -> None:
     ck.explanation = (
         "Effect/ownership analysis over all non-legacy modules: every node class is a frozen dataclass without "
@@ -214,3 +291,9 @@ def run(ck: Checker) -> None:
     ck.guard("R-INPLACE", lambda: r_inplace(ck, ncls))
     from . import templates_rules
     ck.guard("R-GEN-PURE", lambda: templates_rules.r_gen_pure(ck))
+    if ck.tier == "thorough":
+        ck.explanation += (" Thorough tier: mypy (the repository's own dev dependency, used as a library) infers the type of every write receiver "
+                           "as a cross-check of the classification, and a compile-fail witness (a program assigning to node fields must be rejected "
+                           "as read-only, its reading twin must type-check) confirms the frozen declaration as the type checker sees it.")
+        ck.guard("R-FROZEN", lambda: r_frozen_witness(ck))
+        ck.guard("R-BYPASS-TYPED", lambda: r_bypass_typed(ck, ncls))
